@@ -78,7 +78,8 @@ def static_obligations(tier):
     groups = relang.top_groups(E.ELLIPSIS_PATTERN)
     five = [g for g, _ in groups] == [1, 2, 3, 4, 5]
     lang = relang.finite_language(groups[2][1]) if five else None
-    return [{"oid": "shape/typography.ellipses:ELLIPSIS_PATTERN/five_groups", "status": "discharged" if five else "refuted",
+    from .C08 import inline_scope_obligations
+    return inline_scope_obligations() + [{"oid": "shape/typography.ellipses:ELLIPSIS_PATTERN/five_groups", "status": "discharged" if five else "refuted",
              "src": "ELLIPSIS_PATTERN is the concatenation of capture groups 1..5 (prefix, spaces, dots, punctuation, spaces)",
              "detail": str([g for g, _ in groups])},
             {"oid": "shape/typography.ellipses:ELLIPSIS_PATTERN/dots_group_is_three_dots",
